@@ -135,6 +135,19 @@ func verifyFunc(p *Prog, fn *ssa.Function, fc *FuncContract, cover bool) (e *Exe
 		e.forallVars[q.Name] = e.freshVal("all_"+q.Name, t, k)
 	}
 	e.predeclareSiteWitnesses(st)
+	// every `call F#k:` section must name a call (or send) site that exists in the code
+	for _, sec := range fc.Calls {
+		found := false
+		for _, cs := range e.callOrd {
+			if cs.name == sec.Callee && cs.k == sec.N {
+				found = true
+				break
+			}
+		}
+		if !found {
+			e.unboundSites[fmt.Sprintf("%s#%d", sec.Callee, sec.N)] = true
+		}
+	}
 	for _, site := range sortedKeys(e.unboundSites) {
 		o := e.obligeNoAssume(st, "site:"+site+":unbound", "pre", contractTags(fc), "false", "the contract refers to call site "+site+", which no longer exists in the function", fn.Pos())
 		o.Pos = posOf(p, fn.Pos())
@@ -411,6 +424,7 @@ func generate(p *Prog, prop string, cover bool) *RunResult {
 	if prop != "" {
 		goCaptureSweep(p, prop, rr)
 		orderedIterationSweep(p, prop, rr)
+		lockCopySweep(p, prop, rr)
 	}
 	for _, n := range sortedKeys(p.CS.Externs) {
 		if xf := p.CS.Externs[n]; xf.Used {
